@@ -167,3 +167,20 @@ Theorem table_lookup_in_bounds : forall unspec code ops, uses_table code = true 
     i < OP_MODES_CELLS /\ insn_op_mode unspec code ops i = cell (desc_of code) i.
 Proof. exact table_lookup_in_bounds_lemma. Qed.
 Print Assumptions table_lookup_in_bounds.
+
+(* Error codes of call / inline / jcall at creation: MIR_ops_num_error when there is no room for
+   prototype and address, MIR_call_op_error for a non-prototype first operand or an operand count
+   that does not match the prototype (more only for vararg prototypes), MIR_wrong_type_error for
+   a broken block-argument rule -- and nothing else. *)
+Theorem call_error_codes : forall unspec code ops, is_call code = true ->
+  (length ops < 2 -> check_new_insn unspec code ops = Err E_ops_num)
+  /\ (2 <= length ops -> (forall p, nth_op ops 0 <> ORef I_proto (Some p)) ->
+      check_new_insn unspec code ops = Err E_call_op)
+  /\ (forall p, 2 <= length ops -> nth_op ops 0 = ORef I_proto (Some p) ->
+      let n := length (p_res p) + length (p_args p) + 2 in
+      (length ops < n \/ (length ops <> n /\ p_vararg p = false) ->
+         check_new_insn unspec code ops = Err E_call_op)
+      /\ (n <= length ops -> (length ops = n \/ p_vararg p = true) ->
+          forall e, check_new_insn unspec code ops = Err e -> e = E_wrong_type)).
+Proof. exact call_error_codes_lemma. Qed.
+Print Assumptions call_error_codes.
